@@ -5,6 +5,7 @@
 
 use crate::corpus::*;
 use cglue::prelude::v1::*;
+use cglue::trait_group::c_void;
 use simcore::Fnv;
 use std::pin::Pin;
 
@@ -720,6 +721,10 @@ pub fn call_intresalias<O: IntResAlias + ?Sized>(rv: &mut Recv<O>, mi: usize, a:
                 Err(e) => io_ret(code, false, e),
             }
         }
+        // (a plain `Result` in a trait whose attribute names an alias crosses the vtable as the
+        // Rust enum it is - rustc warns that it is not FFI-safe - so it is no part of what a
+        // separately compiled module may be handed: C05 runs leave it out)
+        2 if crate::plugin::plugin_path().is_some() => Ret::NoSuchMethod,
         2 => match o.ira_other(a.i32(0)) {
             Ok(v) => Ret::Ok_(Box::new(Ret::U(v))),
             Err(e) => Ret::Err_(Box::new(Ret::Multi(vec![Ret::U(e.code as u32 as u64), Ret::U(e.detail as u32 as u64)]))),
@@ -953,6 +958,45 @@ where
 }
 
 pub const CHILDRENMORE: [Meth; 3] = [m("m_res"), m("m_peek"), m("m_res_plain")];
+pub const CHILDRENMORE_SINGLE: [Meth; 4] = [m("m_res"), m("m_peek"), m("m_res_plain"), Meth { name: "m_res_rawslot", logged_as: "m_res" }];
+
+
+impl<C> RawSlotCall for ChildrenMoreBase<'static, CBox<'static, c_void>, C>
+where
+    C: cglue::trait_group::ContextBounds,
+    Self: ChildrenMore<MChild = BasicBase<'static, CBox<'static, c_void>, C>>,
+{
+    fn m_res_rawslot(&self, fail: bool) -> Result<Self::MChild, bool> {
+        use cglue::trait_group::{GetContainer, GetVtblBase};
+        // (a foreign caller knows no lifetimes: the entry's `'cglue_a` borrow is the call's)
+        let this: &'static Self = unsafe { &*(self as *const Self) };
+        let f = this.get_vtbl_base().m_res();
+        let mut slot = core::mem::MaybeUninit::<BasicBase<'static, CBox<'static, c_void>, C>>::uninit();
+        let n = core::mem::size_of_val(&slot);
+        let p = slot.as_mut_ptr() as *mut u8;
+        unsafe { core::ptr::write_bytes(p, 0xA5, n) };
+        let code = unsafe { f(this.ccont_ref(), fail, &mut slot) };
+        if code == 0 {
+            Ok(unsafe { slot.assume_init() })
+        } else {
+            Err((0..n).all(|i| unsafe { p.add(i).read() } == 0xA5))
+        }
+    }
+}
+
+pub fn call_childrenmore_single<O>(rv: &mut Recv<O>, mi: usize, a: &mut A) -> Ret
+where
+    O: RawSlotCall + ?Sized,
+    O::MChild: IntoDyn<KBasic>,
+{
+    match mi {
+        3 => match rv.r().m_res_rawslot(a.flag(0)) {
+            Ok(c) => Ret::Ok_(Box::new(Ret::Obj(c.into_dyn()))),
+            Err(untouched) => Ret::Err_(Box::new(Ret::B(untouched))),
+        },
+        _ => call_childrenmore(rv, mi, a),
+    }
+}
 
 pub fn call_childrenmore<O>(rv: &mut Recv<O>, mi: usize, a: &mut A) -> Ret
 where
